@@ -31,9 +31,9 @@ structure R (P : Nat) (a : AState) (s : Sess) : Prop where
   modefp : s.b.hasfp = false ↔ memMode s.b.mode
   base0 : s.b.hasfp = false → s.b.base = 0
   anch : s.b.hasfp = true → s.b.absAnchor = a.anchor ∧ (a.anchor ≠ none → s.b.nanchor = a.nanchor)
-  aanch : ∀ A, a.anchor = some A → A ≤ a.cur ∧ 1 ≤ a.nanchor
+  aanch : ∀ A, a.anchor = some A → 1 ≤ a.nanchor
   lastp : s.lastp.map (s.b.base + ·) = a.lastp
-  lastp_le : ∀ p, a.lastp = some p → p ≤ a.cur ∧ ∀ A, a.anchor = some A → A ≤ p
+  lastp_le : ∀ p, a.lastp = some p → p ≤ a.cur
 
 /-- one operation of the model simulates one operation of the specification -/
 def SimStep (P : Nat) (op : Op) : Prop :=
